@@ -7,7 +7,7 @@ import re
 
 from checks import C01, _codec
 from checks._codec import Codec, events, macro_placeholders, unplaceholder
-from nvsa import j2front
+from nvsa import j2front, pyfront
 from nvsa.j2front import xs
 from nvsa.report import AnalysisError
 
@@ -218,8 +218,17 @@ def rule_repr_err(ctx, cd):
             else:
                 ok = adv == ["{ref_size_bytes} * 8"]
                 ctx.ob(R, t.rel, f"{lang}: sealed nested object: cursor advances by the consumed size", ok, "" if ok else f"advances {adv}")
-    # NESTED-BOUND
-    RB = "R-C02-NESTED-BOUND"
+    rule_nested_bound(ctx, cd, "R-C02-NESTED-BOUND")
+    # python
+    tp = cd.tmpl("py", "des")
+    txt = "".join(d.data for d in tp.ast.find_all(N.TemplateData))
+    for what, pat in (("array length above capacity", r"raise _des_\.FormatError\(f?'[^']*length"), ("unknown union tag", r"raise _des_\.FormatError\(f?'[^']*tag"),
+                      ("delimiter header beyond the remaining data", r"raise _des_\.FormatError\(f?'[^']*[Dd]elimiter")):
+        ok = re.search(pat, txt) is not None
+        ctx.ob(R, tp.rel, f"py: {what} raises FormatError", ok, "")
+
+
+def rule_nested_bound(ctx, cd, RB):
     ctx.rule(RB, "the nested deserializer of a composite receives a window bounded by the delimiter header value (sealed: by the "
                  "remaining size): C passes `&<size var>` holding that value; C++ passes in_buffer.subspan(0, <size var>)")
     for lang in ("c", "cpp"):
@@ -237,6 +246,25 @@ def rule_repr_err(ctx, cd):
             ctx.ob(RB, t.rel, f"{lang}: nested window is bounded by the size variable [{'delimited' if deli else 'sealed'}]", ok,
                    "" if ok else "the nested deserializer can read past the end announced by the delimiter header: fields missing in a shorter "
                    "(older) encoding are filled from the following sibling's bytes instead of zeros")
+            if deli:
+                # the header is compared with what is left *after* the header itself has been consumed
+                hdr = [m_.start() for m_ in re.finditer(r"Pz\d+z", text) if "_deserialize_integer(" in (p.xs_of(m_.group(0)) or "")]
+                if lang == "c":
+                    cm = re.search(r"if \( ?(Pz\d+z) > ([^)]+?) ?\) ?\{ ?return -NUNAVUT_ERROR_REPRESENTATION_BAD_DELIMITER_HEADER", text)
+                    okh = cm is not None and bool(hdr) and cm.group(1) == sz and cm.start() > hdr[0]
+                    if okh:
+                        x = cm.group(2).strip()
+                        if p.xs_of(x) == "remaining_bytes":
+                            pass  # the set-block expands in place: evaluated at the comparison
+                        else:
+                            decl = [d.start() for d in re.finditer(rf"\b{re.escape(x)} ?= ", text)]
+                            okh = bool(decl) and min(decl) > hdr[0]
+                else:
+                    cm = re.search(r"if \( ?\(?(Pz\d+z) \* 8U\)? > in_buffer\.size\(\) ?\)", text)
+                    okh = cm is not None and bool(hdr) and cm.group(1) == sz and cm.start() > hdr[0]
+                ctx.ob(RB, t.rel, f"{lang}: delimiter header is compared with the size remaining after the header was consumed", okh,
+                       "" if okh else "the bound is evaluated before the header bytes are consumed (or against another quantity): a header up to "
+                       "4 bytes too large is accepted and the nested deserializer reads past the end of the buffer")
             if lang == "c" and not deli:
                 rem = p.name_of("remaining_bytes")
                 m2 = cd.macro("c", "des", "_deserialize_composite")
@@ -245,13 +273,6 @@ def rule_repr_err(ctx, cd):
                 ok2 = rem is not None and re.search(rf"{sz} = \([^)]*\) ?{rem};", text) is not None and \
                     btxt == "(capacity_bytes - nunavutChooseMin((offset_bits / 8U), capacity_bytes))"
                 ctx.ob(RB, t.rel, "c: sealed nested object gets the remaining bytes (capacity - min(offset, capacity))", ok2, "")
-    # python
-    tp = cd.tmpl("py", "des")
-    txt = "".join(d.data for d in tp.ast.find_all(N.TemplateData))
-    for what, pat in (("array length above capacity", r"raise _des_\.FormatError\(f?'[^']*length"), ("unknown union tag", r"raise _des_\.FormatError\(f?'[^']*tag"),
-                      ("delimiter header beyond the remaining data", r"raise _des_\.FormatError\(f?'[^']*[Dd]elimiter")):
-        ok = re.search(pat, txt) is not None
-        ctx.ob(R, tp.rel, f"py: {what} raises FormatError", ok, "")
 
 
 def rule_consumed(ctx, cd):
@@ -288,3 +309,5 @@ def run(ctx):
     rule_repr_err(ctx, cd)
     rule_consumed(ctx, cd)
     C01.rule_errprop(ctx, cd, "des", "R-C02-ERRPROP")
+    _codec.rule_zero_cost(ctx, pyfront.PyIndex(ctx.root), "R-C02-ZEROCOST")
+    _codec.rule_offset_sets(ctx, cd, "des", "R-C02-OFFSET-SET")
